@@ -23,6 +23,26 @@ CHECKS = {
          'Count and count-map probes after every operation of generated histories with rejected operations, peeks, offset reads and restarts, compared with appended-consumed of the FIFO model.',
          'Counts after an AtLeastOnce restart are not judged.', '§5 C15'),
 }
+CHECKS.update({
+ 'C02': ('E1', 'exploration', 'metamorphic + model-based property testing (peek/consume pairs, erasure differential of non-consuming reads incl. reclamation bookkeeping via H3, content oracle for offset reads)',
+         'Three relations on every generated history: each peek equals the immediately following consuming read; the same history with every peek and offset-addressed read erased must give identical consuming results, counts, WAL file count and per-file reclamation counters after a full drain; every element of an offset-addressed read is an appended payload of that topic (first element may be a suffix) in append order.',
+         'H3 (cfg walrus_verif) exposes the per-file counters read-only. File names are wall-clock based, so tracker views are compared as multisets.', '§5 C02'),
+ 'C07': ('E2', 'fault_enumeration', 'crash-point enumeration over generated workloads (H1 I/O seam: process exit before / in the middle of every foreground I/O event) with a prefix-closed recovery oracle',
+         'For each generated workload all foreground I/O events are enumerated by a traced run; the workload is re-run with the process terminated before each selected event (torn variants for block writes), reopened in a fresh process and drained. Quick samples <=16 crash points per workload (stratified), thorough takes up to 400 (normally all).',
+         'Process-crash model: completed syscalls and completed stores into the shared mapping persist. Background-thread I/O is not numbered.', '§5 C07'),
+ 'C08': ('E2', 'fault_enumeration', 'crash-point enumeration inside and around generated batch appends (H1), all-or-nothing recovery oracle',
+         'Crash points at every I/O event of every batch operation of generated workloads (per-entry block writes on mmap, j-of-n io_uring submissions on fd, submit, flush, publish); after recovery the topic must hold the acknowledged entries followed by all or none of the in-flight batch.',
+         'While known finding C08-prefix (no commit record: a crash between the data writes of a multi-entry batch leaves a valid prefix) is open, crash points strictly between those writes are excluded from the main search and demonstrated by the probe; every other outcome is still a violation.', '§5 C08'),
+ 'C09': ('E2', 'fault_enumeration', 'crash-point enumeration at the persist steps of consuming reads (H1) with per-mode cursor-bound oracle',
+         'Workloads mixing appends, read_next and consuming batch reads; crash before every I/O event of the reads (index tmp write, fsync, rename) and between operations; StrictlyAtOnce: resume exactly at the acknowledged consumption (in-flight read may go either way); AtLeastOnce: never a skip, read_next-only topics redeliver at most persist_every entries.',
+         'Same process-crash model as C07.', '§5 C09'),
+ 'C14': ('E1', 'exploration', 'grammar-based property testing of namespace keys through all six construction paths with a before/after directory-tree oracle',
+         'Key strings from a character-class grammar plus special keys, each through one of six constructors; the whole scratch tree is snapshotted before and after; every new path must lie under <data dir>/<one component not in {"", ".", ".."}>/.',
+         'NUL cannot travel through environment variables and is stripped for the env-based constructors.', '§5 C14'),
+ 'C16': ('E1', 'exploration', 'differential property testing (identical concrete history on the FD/io_uring backend and the mmap backend, response-by-response comparison)',
+         'Every generated history (appends, batches spanning rotations, both read APIs, peeks, offset reads, counts, rejected operations, reopen events) is executed on the FD backend and the same concrete steps are replayed on the mmap backend in separate processes; every response must be equal (Ok/Err kind, entries by length+hash, counts).',
+         'Errors are compared by ErrorKind. io_uring works in this sandbox, so the FD run really uses it.', '§5 C16'),
+})
 NOT_APPLICABLE = {
  'C19': 'needs the vendored openraft + octopii node/network to execute; none of their dependencies (tokio, futures, quinn, bincode, anyerror, ...) is available offline and a stand-in would replace the very thing under test; the "eventually applied" half is liveness (DESIGN.md §8)',
 }
@@ -64,6 +84,7 @@ m = {
  },
  'engines': [
    {'name': 'E1', 'path': 'harness/src/{absop,interp,model}.rs', 'serves_properties': ['C01','C02','C03','C06','C14','C15','C16','C17'], 'kind_free_text': 'sequential model-based search: proptest-generated abstract histories, interpreted against a FIFO reference model, executed in child processes on the real engine'},
+   {'name': 'E2', 'path': 'harness/src/props/crash.rs', 'serves_properties': ['C07','C08','C09'], 'kind_free_text': 'crash-point enumeration: E1 workloads traced through the H1 I/O seam, re-executed with the process terminated at each selected event, recovered in a fresh process and judged against the acknowledged history'},
  ],
  'checks': checks,
  'not_applicable': na,
